@@ -209,12 +209,11 @@ def gen_p(rng, cols, depth=2, wild_ranges=False, leaf_lits=True):
             return ["plit", rng.random() < 0.5]
         if r2 < 0.88:
             return ["inrange", gen_e(rng, cols, 1), gen_range(rng, wild_ranges)]
-        return [
-            "inseq",
-            gen_e(rng, cols, 1),
-            [gen_e(rng, cols, 1) for _ in range(rng.randint(0, 3))],
-            rng.choice(["list", "tuple"]),
-        ]
+        if rng.random() < 0.35:
+            items = [["lit", rng.randint(-3, 3)] for _ in range(rng.randint(0, 3))]  # all-literal sequence
+        else:
+            items = [gen_e(rng, cols, 1) for _ in range(rng.randint(0, 3))]
+        return ["inseq", gen_e(rng, cols, 1), items, rng.choice(["list", "tuple"])]
     if r < 0.6:
         return ["not", gen_p(rng, cols, depth - 1, wild_ranges, leaf_lits)]
     k = "and" if r < 0.82 else "or"
